@@ -175,15 +175,8 @@ func ruleC05Reject(e *Env) {
 					}
 				}
 			}
-			if bo, ok := perm.(*ssa.BinOp); ok && bo.Op == token.EQL {
-				if k, isC := flow.ConstInt(bo.Y); isC && k == 0 {
-					if and, ok := bo.X.(*ssa.BinOp); ok && and.Op == token.AND {
-						m, isM := flow.ConstInt(and.Y)
-						if isM && m == bit && flow.RootParam(and.X) == dp.Params[len(dp.Params)-1] {
-							gate = true
-						}
-					}
-				}
+			if e.flagTest(perm, dp.Params[len(dp.Params)-1], bit) == -1 {
+				gate = true
 			}
 		}
 		if gate {
@@ -527,10 +520,27 @@ func ruleC05Strict(e *Env, hyph []int) {
 	} else {
 		e.S.Ok(rule, "uu.IDLength", "value", "IDLength = 36", "")
 	}
-	if uf := tabConstString(e, "uu", "urnFormat"); !strings.HasPrefix(uf, prefix) {
-		e.S.Bad(rule, "uu.urnFormat", "prefix", fmt.Sprintf("urnFormat %q does not start with URNPrefix %q", uf, prefix), "", "")
-	} else {
-		e.S.Ok(rule, "uu.urnFormat", "prefix", "urnFormat starts with URNPrefix", "")
+	// what the formatter writes in front of a URN is the prefix the parser expects (the format that reaches fmt under
+	// FormatURN, whatever constant or helper it comes from)
+	if df, sp := e.F("uu", "DefaultFormatter"), e.P.ByName["uu"]; df != nil && sp != nil && sp.Type("ID") != nil {
+		idT := sp.Type("ID").Type()
+		urnFlag, _ := tabConstInt(e, "uu", "FormatURN")
+		sid := &pred.StructV{T: idT.Underlying().(*types.Struct), Named: idT, Fields: []pred.Val{pred.SymBits("H", 64, false), pred.SymBits("L", 64, false)}}
+		captured, _, err := e.formatCall(df, []pred.Val{pred.Sym{Name: "buf"}, sid, pred.Const{V: constant.MakeInt64(urnFlag)}})
+		uf, isConst := "", false
+		if err == nil && captured != nil {
+			if fc, ok := captured[1].(pred.Const); ok && fc.V != nil && fc.V.Kind() == constant.String {
+				uf, isConst = constant.StringVal(fc.V), true
+			}
+		}
+		switch {
+		case !isConst:
+			e.S.Unk(rule, "uu.DefaultFormatter", "URN prefix", "the format used under FormatURN is not a constant reaching one fmt rendering", "")
+		case !strings.HasPrefix(uf, prefix):
+			e.S.Bad(rule, "uu.DefaultFormatter", "URN prefix", fmt.Sprintf("the URN format %q does not start with URNPrefix %q", uf, prefix), "", "")
+		default:
+			e.S.Ok(rule, "uu.DefaultFormatter", "URN prefix", "the URN format starts with URNPrefix", "")
+		}
 	}
 	urnLen := idLen + int64(len(prefix))
 	fixed := func(a, b pred.Val) (int, bool, bool) {
